@@ -9,8 +9,6 @@ import (
 	"strings"
 )
 
-type ReplayInfo struct{}
-
 func main() {
 	if len(os.Args) < 2 {
 		fmt.Fprintln(os.Stderr, "usage: gvc fn|check|list ...")
